@@ -213,6 +213,8 @@ def c18(run):
 def c19(run):
     # design model: lock discipline and linearizability, exhaustively within small constants
     run.model("MCRegistry.tla", "MCRegistry_lin.cfg", note="2 goroutines x 2 calls, 2 names, 3 services: Linearizable with the history in the state")
+    if run.tier == "thorough":
+        run.model("MCRegistry.tla", "MCRegistry_lin_3x1.cfg", note="3 goroutines x 1 call: Linearizable with the history in the state")
     run.model("MCRegistry.tla", "MCRegistry_locks.cfg", note="3 goroutines x 2 calls: MutualExclusion, NoRace, RightName, OneWinner, WinnerSticks (VIEW hides the history)")
     # sensitivity: each named deviation must violate its invariant
     run.model("MCRegistry.tla", "MCRegistry_dev_split.cfg", expect="OneWinner")
